@@ -98,6 +98,15 @@ HelpPage(line) ==
 \* DefaultResolver on a line whose path comes first; no command name at all: the first default command (help)
 Resolve(line) == LET c == Walk(Lead(line)) IN IF c = "" THEN "help" ELSE RunsFor(c)
 
+\* is the version option set in the parsed args?  The command that runs parses the valid line completely.  The help
+\* command parses leniently, and the lenient parser gives up at the first token it does not know - an option of the
+\* command the line was written for - so only a version switch before that one counts.
+FirstOwn(line) == IF \E i \in 1..Len(line) : line[i].k = "own" THEN CHOOSE i \in 1..Len(line) : line[i].k = "own" /\ \A j \in 1..(i - 1) : line[j].k # "own"
+                  ELSE Len(line) + 1
+VersionParsed(line, sel) ==
+  IF sel = "help" THEN \E i \in 1..Len(line) : line[i].k = "sw" /\ line[i].t[1] \in VersionT /\ i < FirstOwn(line) /\ i < DDIndex(line)
+  ELSE Given(line, VersionT)
+
 S0(line, beh, streams) ==
   [line |-> line, beh |-> beh, streams |-> streams, pc |-> "create",
    io |-> [quiet |-> FALSE, level |-> 0, inter |-> TRUE, decoOut |-> FALSE, decoErr |-> FALSE],
@@ -111,7 +120,7 @@ Stage(s) ==
                               ELSE [s EXCEPT !.pc = "resolve"]
     [] s.pc = "resolve" -> [s EXCEPT !.sel = Resolve(s.line), !.pc = "prehandle"]
     \* PRE_HANDLE listener print_version (the parsed args carry the version option)
-    [] s.pc = "prehandle" -> IF Given(s.line, VersionT)
+    [] s.pc = "prehandle" -> IF VersionParsed(s.line, s.sel)
                              THEN [s EXCEPT !.page = IF s.io.quiet THEN "none" ELSE "version", !.outB = ~s.io.quiet,
                                             !.status = 0, !.pc = "done"]
                              ELSE [s EXCEPT !.pc = "handle"]
@@ -177,7 +186,13 @@ PVersion(line, o) == (Given(line, VersionT) /\ InScope(line)) =>
 SameRun(o, ob) == /\ o.status = ob.status /\ o.calls = ob.calls /\ o.outTags = ob.outTags /\ o.errTags = ob.errTags
                   /\ o.outEsc = ob.outEsc /\ o.errEsc = ob.errEsc /\ o.io = ob.io /\ o.page = ob.page
                   /\ o.answer = ob.answer /\ o.consumed = ob.consumed
-PAfterDD(line, o, ob) == HasSwLits(line) => (SameRun(o, ob) /\ (o.io.ran => o.args = Args(line)))
+\* the values after "--" are the last ones the handler receives: the other run's, with the look-alikes among them
+ArgsOK(line, o, ob) ==
+  LET all == Tokens(Lits(line))
+      kept == Tokens(Lits(StripLits(line)))
+      n == Len(ob.args) - Len(kept)
+  IN n >= 0 /\ SubSeq(ob.args, n + 1, Len(ob.args)) = kept /\ o.args = SubSeq(ob.args, 1, n) \o all
+PAfterDD(line, o, ob) == HasSwLits(line) => (SameRun(o, ob) /\ (o.io.ran => ArgsOK(line, o, ob)))
 
 PAll(line, o) == /\ PQuiet(line, o) /\ PVerbosity(line, o) /\ PNoAnsi(line, o) /\ PAnsi(line, o)
                  /\ PNoInteraction(line, o) /\ PHelp(line, o) /\ PVersion(line, o)
